@@ -214,6 +214,83 @@ big_run(int a, const uint8_t * p, size_t n, size_t first, size_t piece, uint8_t 
 	}
 }
 
+/*
+ * `bigd <sha256|sha1|md5> <n> <seed>`: n bytes (n up to 2^30) of the pattern byte(i) = (uint8_t)(seed + i*7 +
+ * (i>>8)*13 + (i>>16)*101) -- `patByte` in lean/Percival/Model/HashStep.lean -- are hashed by ONE *_Buf call and as
+ * _Init, one _Update of n bytes, _Final.  The answer is `sum <digest>` (or both values when they differ); `pmodel`
+ * streams its model over the same bytes.  With n >= 2^25 the bit count has bits 28.. set, which no other case with
+ * real data reaches.  Public interfaces only.
+ */
+#define BIGDLIM ((size_t)1 << 30)
+
+/* a decimal number (digits only, as `String.toNat?` reads it); values beyond 2^40 are reported as 2^40 */
+static int
+bigd_num(const char * s, size_t * out)
+{
+	size_t v = 0;
+
+	if (*s == '\0')
+		return (0);
+	for (; *s != '\0'; s++) {
+		if (*s < '0' || *s > '9')
+			return (0);
+		if (v < ((size_t)1 << 40))
+			v = v * 10 + (size_t)(*s - '0');
+	}
+	*out = v;
+	return (1);
+}
+
+static void
+bigd_fill(uint8_t * p, size_t n, size_t seed)
+{
+	size_t i;
+
+	for (i = 0; i < n; i++)
+		p[i] = (uint8_t)(seed + i * 7 + (i >> 8) * 13 + (i >> 16) * 101);
+}
+
+static void
+bigd_run(int a, size_t n, size_t seed)
+{
+	SHA256_CTX s2; SHA1_CTX s1; MD5_CTX m5;
+	uint8_t r1[32], r2[32];
+	uint8_t * p;
+
+	/* An exact-size anonymous mapping plus one page: reading past the end by more than a page faults. */
+	p = mmap(NULL, n + 1, PROT_READ | PROT_WRITE, MAP_PRIVATE | MAP_ANONYMOUS | MAP_NORESERVE, -1, 0);
+	if (p == MAP_FAILED)
+		abort();
+	bigd_fill(p, n, seed);
+	memset(r1, 0, 32);
+	memset(r2, 0, 32);
+	alarm(900);
+	switch (a) {
+	case A_SHA256:
+		SHA256_Buf(p, n, r1);
+		SHA256_Init(&s2); SHA256_Update(&s2, p, n); SHA256_Final(r2, &s2);
+		break;
+	case A_SHA1:
+		SHA1_Buf(p, n, r1);
+		SHA1_Init(&s1); SHA1_Update(&s1, p, n); SHA1_Final(r2, &s1);
+		break;
+	default:
+		MD5_Buf(p, n, r1);
+		MD5_Init(&m5); MD5_Update(&m5, p, n); MD5_Final(r2, &m5);
+		break;
+	}
+	alarm(0);
+	munmap(p, n + 1);
+	if (memcmp(r1, r2, 32) == 0) {
+		printf("sum ");
+		hc_puthex(r1, dlen[a]);
+	} else {
+		printf("differ buf="); hc_puthex(r1, dlen[a]);
+		printf(" init-update-final="); hc_puthex(r2, dlen[a]);
+	}
+	HC_END();
+}
+
 int
 main(void)
 {
@@ -436,6 +513,16 @@ main(void)
 				printf(" pieces="); hc_puthex(r3, 32);
 			}
 			HC_END();
+		} else if (hc_is("bigd", 3) && (a = alg_of(hc_tok[1])) != A_NONE) {
+			size_t n, seed;
+
+			if (!bigd_num(hc_tok[2], &n) || !bigd_num(hc_tok[3], &seed)) {
+				printf("bad-op");
+				HC_END();
+				continue;
+			}
+			if (n > BIGDLIM || seed > 255) { skip(); continue; }
+			bigd_run(a, n, seed);
 		} else {
 			printf("bad-op");
 			HC_END();
